@@ -30,10 +30,12 @@ Proof. exact Proofs.Oms.slots_roundtrip_inv. Qed.
 Print Assumptions slots_roundtrip_inv.
 
 (* ---------------------------------------------------------------- create_oms_bitmap *)
-(* sorted disjoint common bands inside [f_min, f_max] whose facing edges fall into different slots: the map has
-   one cell per slot of n_min..n_max, and cell n is FREE iff n lies in the slot range of some band *)
+(* for ALL sorted, non-overlapping common bands inside [f_min, f_max] (create_oms_bitmap as repaired by 5d131b9c; no
+   slot-level separation needed): the map has exactly one cell per slot of n_min..n_max, and cell n is FREE iff n
+   lies in the slot range [n(f_min_i), n(f_max_i)] of some band - so a slot that the facing edges of two bands
+   share is FREE once *)
 Theorem bitmap_len : forall (grid f_min f_max : Q) (common : list band),
-  (0 < grid)%Q -> sorted_in f_min f_max common -> slot_apart grid common ->
+  (0 < grid)%Q -> sorted_in f_min f_max common ->
   exists c, create_oms_bitmap common f_min f_max grid = Ok c /\
             Z.of_nat (length c) = frequency_to_n f_max grid - frequency_to_n f_min grid + 1 /\
             forall n, frequency_to_n f_min grid <= n <= frequency_to_n f_max grid ->
@@ -42,16 +44,16 @@ Theorem bitmap_len : forall (grid f_min f_max : Q) (common : list band),
 Proof. exact Proofs.Oms.bitmap_len. Qed.
 Print Assumptions bitmap_len.
 
-(* full statement without the slot-level separation ("every sorted disjoint common range inside [f_min, f_max]")
-   is FALSE of the faithful model: two bands 2 GHz apart inside one slot give one cell too many *)
-Theorem bitmap_len_touching_refuted :
-  exists grid f_min f_max common c,
-    (0 < grid)%Q /\ sorted_in f_min f_max common /\ create_oms_bitmap common f_min f_max grid = Ok c /\
-    Z.of_nat (length c) <> frequency_to_n f_max grid - frequency_to_n f_min grid + 1.
-Proof. exact Proofs.Oms.bitmap_len_touching_refuted. Qed.
-Print Assumptions bitmap_len_touching_refuted.
+(* the former counter-example (two bands 2 GHz apart inside slot 20, corpus/C15/k02): 51 cells for slots 0..50,
+   slot 20 FREE once *)
+Example bitmap_shared_slot :
+  let common := [((193162500000000 # 1), (193226000000000 # 1)); ((193228000000000 # 1), (193350000000000 # 1))] in
+  sorted_in f_ref (193412500000000 # 1) common /\
+  map (band_slots default_grid) common = [(10, 20); (20, 40)] /\
+  create_oms_bitmap common f_ref (193412500000000 # 1) default_grid = Ok (rep SU 10 ++ rep SF 31 ++ rep SU 10).
+Proof. cbv zeta. split; [cbn; repeat split; discriminate|]. split; vm_compute; reflexivity. Qed.
 
-(* grid-aligned band edges: sorted disjoint is enough, and FREE <-> the slot's nominal frequency lies inside a band *)
+(* grid-aligned band edges: FREE <-> the slot's nominal frequency lies inside a band, UNUSABLE otherwise *)
 Theorem bitmap_marks : forall (grid f_min f_max : Q) (common : list band),
   (0 < grid)%Q -> sorted_in f_min f_max common ->
   Forall (fun b => on_grid grid (fst b) /\ on_grid grid (snd b)) common ->
@@ -191,7 +193,7 @@ Print Assumptions reversed_pairing.
 
 (* ---------------------------------------------------------------- the whole build_oms_list *)
 (* chain-structured network with at least one line, some amplifier band, and on every line a common range that is
-   sorted, disjoint, inside the network range and slot-separated: build_oms_list succeeds, returns the lines as
+   sorted, non-overlapping and inside the network range: build_oms_list succeeds, returns the lines as
    OMS, pairs them as reversed_pairing says, and every map covers n(f_min)..n(f_max) once, FREE exactly on the
    slots of the line's common band(s) and UNUSABLE elsewhere *)
 Theorem build_oms_list_ok : forall (g : graph) (si : band) (d : list line) (fmin fmax : Q),
@@ -250,12 +252,12 @@ Proof. exact Proofs.Oms.build_si_outside_refuted. Qed.
 Print Assumptions build_si_outside_refuted.
 
 (* ---------------------------------------------------------------- further non-vacuity examples *)
-(* off-grid band edges 1 GHz inside their slots: sorted, slot-separated *)
+(* off-grid band edges 1 GHz inside their slots *)
 Example bitmap_len_nonvacuous :
   let common := [((193101000000000 # 1), (193124000000000 # 1)); ((193151000000000 # 1), (193199000000000 # 1))] in
-  (0 < default_grid)%Q /\ sorted_in f_ref (193300000000000 # 1) common /\ slot_apart default_grid common /\
+  (0 < default_grid)%Q /\ sorted_in f_ref (193300000000000 # 1) common /\
   create_oms_bitmap common f_ref (193300000000000 # 1) default_grid = Ok (rep SF 4 ++ rep SU 4 ++ rep SF 8 ++ rep SU 17).
-Proof. cbv zeta. split; [reflexivity|]. split; [cbn; repeat split; discriminate|]. split; [cbn; lia|vm_compute; reflexivity]. Qed.
+Proof. cbv zeta. split; [reflexivity|]. split; [cbn; repeat split; discriminate|vm_compute; reflexivity]. Qed.
 
 Example same_extent_nonvacuous :
   exists l, oms_maps (186000000000000 # 1) (196100000000000 # 1)
